@@ -69,7 +69,7 @@ func c03ParamRef(f *ssa.Function, s string) ssa.Value {
 }
 
 func c03Sub(r *fw.Run, c *c03x) {
-	ru := r.Rule("C03.sub", "nested decodes: Format/TryFieldFormat/Len/Range decode on d.bitBuf with IsRoot=false and Range = {Pos(), BitsLeft()} / {Pos(), nBits} / {firstBit, nBits}, link the result (children for Format) and advance by the decoded length / nBits / not at all; TryFieldFormatBitBuf decodes the given buffer as a root and places it at d.Pos(); Field{Array,Struct}[RootBitBufFn] create the compound kind they name, link it before fn and (root variants) mark IsRoot before fn and defer postProcess before fn so that it also runs when fn fails; decode.Decode forwards to decode() and every outside caller decodes as a root with reader and Range from one binary value", 40)
+	ru := r.Rule("C03.sub", "nested decodes: Format/TryFieldFormat/Len/Range decode on d.bitBuf with IsRoot=false and Range = {Pos(), BitsLeft()} / {Pos(), nBits} / {firstBit, nBits}, link the result (children for Format) and advance by the decoded length / nBits / not at all; TryFieldFormatBitBuf decodes the given buffer as a root and places it at d.Pos(); Field{Array,Struct}[RootBitBufFn] create the compound kind they name, link it before fn and (root variants) mark IsRoot before fn and defer postProcess before fn so that it also runs when fn fails; decode.Decode forwards to decode() and every outside caller decodes as a root with reader and Range from one binary value; a nested result is linked / advanced over only after dv != nil and dv.Errors() == nil were established", 45)
 	p := c.p
 	posFn := c.fn(ru, c03D+"Pos")
 	blFn := c.fn(ru, c03D+"BitsLeft")
@@ -195,6 +195,131 @@ func c03Sub(r *fw.Run, c *c03x) {
 			}
 		}
 		ru.Check(okAdv, row.fn+":advance", c.at(f), "position advance: "+row.advance, row.fn+": after the nested decode the position does not advance by "+row.advance+" (relative seek on d.bitBuf): following fields overlap or skip bits")
+		// the nested result is adopted (linked / flattened into d, position advanced) only after it
+		// was tested: dv != nil and dv.Errors() == nil, the failing arm raising or returning
+		{
+			errsFn := c.p.Fn(c03Value + "Errors")
+			var adopt []ssa.Instruction
+			for _, ac := range acs {
+				adopt = append(adopt, ac)
+			}
+			for _, sk := range seeks {
+				adopt = append(adopt, sk)
+			}
+			okNil, okErr := dv != nil && errsFn != nil && len(adopt) > 0, dv != nil && errsFn != nil && len(adopt) > 0
+			if okNil {
+				// classify a branch condition: which successor (0/1) is taken when the nested result
+				// passed the test ("nil": dv != nil, "err": dv.Errors() == nil)
+				classify := func(cond ssa.Value) (kind string, pass int) {
+					g := c03Norm(fw.Guard{Cond: cond, True: true})
+					bo, ok := g.Cond.(*ssa.BinOp)
+					if !ok || (bo.Op != token.EQL && bo.Op != token.NEQ) {
+						return "", 0
+					}
+					var other ssa.Value
+					if isNilConst(bo.X) {
+						other = bo.Y
+					} else if isNilConst(bo.Y) {
+						other = bo.X
+					} else {
+						return "", 0
+					}
+					nonNil, isNil := 0, 1 // successor taken when other is not nil / is nil
+					if (bo.Op == token.NEQ) != g.True {
+						nonNil, isNil = 1, 0
+					}
+					if c.canon(other) == dv {
+						return "nil", nonNil
+					}
+					if c.isCallOf(other, errsFn, dv) != nil {
+						return "err", isNil
+					}
+					return "", 0
+				}
+				// reaches: an adoption instruction is reachable from the decode call without taking a
+				// pass edge of the given kind and without entering a block that never completes;
+				// conditions merged into a boolean variable (failed := a || b) are followed per incoming edge
+				reaches := func(kind string, target *ssa.BasicBlock) bool {
+					type st struct{ b, from *ssa.BasicBlock }
+					seen := map[st]bool{}
+					var visit func(b, from *ssa.BasicBlock) bool
+					visit = func(b, from *ssa.BasicBlock) bool {
+						if fw.CurrentNR != nil && fw.CurrentNR.BlockFails(b) {
+							return false
+						}
+						if b == target {
+							return true
+						}
+						ifi, isIf := b.Instrs[len(b.Instrs)-1].(*ssa.If)
+						key := st{b, nil}
+						var cond ssa.Value
+						if isIf {
+							cond = ifi.Cond
+							polarity := true
+							for {
+								u, ok := cond.(*ssa.UnOp)
+								if !ok || u.Op != token.NOT {
+									break
+								}
+								cond, polarity = u.X, !polarity
+							}
+							if ph, ok := cond.(*ssa.Phi); ok && ph.Block() == b && from != nil {
+								key = st{b, from}
+								for i, pr := range b.Preds {
+									if pr == from {
+										cond = ph.Edges[i]
+									}
+								}
+							}
+							if seen[key] {
+								return false
+							}
+							seen[key] = true
+							if k, isK := cond.(*ssa.Const); isK && (c03IsConstBool(k, true) || c03IsConstBool(k, false)) {
+								taken := 0
+								if c03IsConstBool(k, true) != polarity {
+									taken = 1
+								}
+								return visit(b.Succs[taken], b)
+							}
+							k, pass := classify(cond)
+							if !polarity {
+								pass = 1 - pass
+							}
+							for i, sc := range b.Succs {
+								if k == kind && i == pass {
+									continue
+								}
+								if visit(sc, b) {
+									return true
+								}
+							}
+							return false
+						}
+						if seen[key] {
+							return false
+						}
+						seen[key] = true
+						for _, sc := range b.Succs {
+							if visit(sc, b) {
+								return true
+							}
+						}
+						return false
+					}
+					return visit(dc.Block(), nil)
+				}
+				for _, a := range adopt {
+					if a.Block() == dc.Block() || reaches("nil", a.Block()) {
+						okNil = false
+					}
+					if a.Block() == dc.Block() || reaches("err", a.Block()) {
+						okErr = false
+					}
+				}
+			}
+			ru.Check(okNil && okErr, row.fn+":adopt-after-test", c.at(f), "AddChild / position advance only behind dv != nil and dv.Errors() == nil", row.fn+": the result of the nested decode is linked into d (or the position advanced by its length) on a path that has not established "+map[bool]string{true: "dv.Errors() == nil", false: "dv != nil"}[okNil]+" (failing arm raising or returning): the partial tree of a failed nested decode is adopted as if it had succeeded, its error is lost and the outer decode goes on from the wrong bits")
+		}
 		if row.setStart {
 			okSet := false
 			if dv != nil {
